@@ -41,7 +41,7 @@ func init() {
 		Run:     runC14,
 		Finish:  c14Finish,
 		MinimaFor: func(t string) map[string]int {
-			return map[string]int{"w1-rpcs-concurrent": tierN(t, 1200, 24000), "w2-streams": tierN(t, 150, 3000), "w2-both-sides-progressed": tierN(t, 60, 1200)}
+			return map[string]int{"w1-rpcs-concurrent": tierN(t, 1200, 24000), "w2-streams": tierN(t, 150, 3000), "w2-both-sides-progressed": tierN(t, 60, 1200), "w3-rpcs-sequential": tierN(t, 1500, 30000), "w3-rpcs-failed": tierN(t, 300, 6000)}
 		},
 	})
 }
@@ -61,9 +61,10 @@ type poolMon struct {
 	recordHist  bool
 	clock       int64
 	bufIDs      map[*bytes.Buffer]int
+	putStack    map[*bytes.Buffer]string
 }
 
-var c14Pool = &poolMon{live: map[*bytes.Buffer]bool{}, codecLive: map[any]bool{}, bufIDs: map[*bytes.Buffer]int{}}
+var c14Pool = &poolMon{live: map[*bytes.Buffer]bool{}, codecLive: map[any]bool{}, bufIDs: map[*bytes.Buffer]int{}, putStack: map[*bytes.Buffer]string{}}
 
 type poolEv struct {
 	Buf int
@@ -110,6 +111,21 @@ func c14Setup(c *Ctx) {
 			if p.live[b] {
 				p.violate("buffer handed out while still owned (visible to two users at the same time)")
 			}
+			if live, known := p.live[b]; known && !live {
+				// released (and poisoned) in this round, now handed out again: nobody may have written to it in between
+				raw := b.Bytes()
+				raw = raw[:cap(raw)]
+				for off, x := range raw {
+					if x != poisonByte {
+						end := off
+						for end < len(raw) && end < off+64 && raw[end] != poisonByte {
+							end++
+						}
+						p.violate(fmt.Sprintf("buffer written after it was released to the pool (found when it was handed out again): %d foreign bytes at offset %d of %d: %q\n--- it had been released by:\n%s\n--- and is now handed out to:", end-off, off, len(raw), raw[off:end], p.putStack[b]))
+						break
+					}
+				}
+			}
 			p.live[b] = true
 			if p.recordHist {
 				p.clock++
@@ -128,10 +144,17 @@ func c14Setup(c *Ctx) {
 				p.violate("buffer released twice")
 			}
 			p.live[b] = false
+			{
+				st := make([]byte, 2048)
+				p.putStack[b] = string(st[:runtime.Stack(st, false)])
+			}
 			if p.recordHist {
 				p.clock++
 				p.history = append(p.history, porcupine.Operation{ClientId: 0, Input: poolEv{p.id(b), false}, Call: p.clock, Output: true, Return: p.clock})
 			}
+			// poison the whole underlying array (Reset first: Bytes() starts at the read offset, and the part
+			// already read would otherwise keep its old contents and be mistaken for a late write)
+			b.Reset()
 			raw := b.Bytes()
 			raw = raw[:cap(raw)]
 			for i := range raw {
@@ -144,12 +167,17 @@ func c14Setup(c *Ctx) {
 					p.quarantine = p.quarantine[1:]
 					or := old.Bytes()
 					or = or[:cap(or)]
-					for _, x := range or {
+					for off, x := range or {
 						if x != poisonByte {
-							p.violate("buffer written after it was released to the pool")
+							end := off
+							for end < len(or) && end < off+64 && or[end] != poisonByte {
+								end++
+							}
+							p.violate(fmt.Sprintf("buffer written after it was released to the pool (withheld from the pool since): %d foreign bytes at offset %d of %d: %q\n--- it had been released by:\n%s\n--- found at:", end-off, off, len(or), or[off:end], p.putStack[old]))
 							break
 						}
 					}
+					delete(p.putStack, old)
 					delete(p.live, old)
 				}
 				return true // withheld from the pool
@@ -542,6 +570,69 @@ func c14W2(c *Ctx, i int, r *rand.Rand, modeB bool) {
 	}
 }
 
+// ---- W3: sequential error paths under the ownership automaton ------------------------------------
+
+func c14W3(c *Ctx, i int, r *rand.Rand) {
+	for k := 0; k < 150; k++ {
+		s := genScenario(r, ScenOpts{Variety: true}, fmt.Sprintf("w3r%dk%d", i, k))
+		if s == nil {
+			continue
+		}
+		cfg := *s.Cfg
+		s.Cfg = &cfg
+		cfg.Limit = 256 << 10
+		var eo execOpts
+		switch r.IntN(6) {
+		case 0, 1, 2:
+			// a small limit and a handler that writes in pieces: the limit trips after part of a body was taken
+			cfg.Limit = pick(r, []uint32{24, 48, 200, 1000})
+			s.Script.WriteSeg = pick(r, [][]int{{2}, {4}, {8}, {16}, {40, 1 << 20}, {1, 1, 1, 1, 1, 2, 3, 1000}, {5, 7}, nil})
+			s.Script.DeclLen = chance(r, 20)
+			eo.Chunks = chunkPlan(r)
+		case 3:
+			if raw := hostileCompressedRequest(r, s, pick(r, []string{"corrupt", "bomb"}), int(cfg.Limit)); raw != nil {
+				s.Req.UseRawBody, s.Req.RawBody = true, raw
+			}
+		case 4:
+			hostileCompressedResponse(r, s.Script, pick(r, []string{"corrupt", "bomb"}), int(cfg.Limit))
+		case 5:
+			s.Script.CutAt = 1 + r.IntN(40)
+			s.Script.EndAfterCut = chance(r, 50)
+		}
+		// many small fields: any prefix that ends at a field boundary is itself a valid message
+		for j := range s.Script.Msgs {
+			if s.Req.Form != FREST && s.Target != "rest" && chance(r, 60) {
+				s.Script.Msgs[j] = genMessage(r, s.Req.M.Out(), genOpts{noMaps: true, density: 40, maxStr: 6, simpleStr: true})
+			}
+		}
+		e, err := runRPC(s.Cfg, s.Req, s.Script, r, &eo)
+		if err != nil {
+			continue
+		}
+		c.Eval()
+		c.Count("w3-rpcs-sequential")
+		if !e.Out.OK() {
+			c.Count("w3-rpcs-failed")
+		}
+		if e.Panic != nil {
+			c.Violate(i, "panic-on-error-path/"+panicSite(e.Stack), e.Describe())
+		}
+		c14Pool.mu.Lock()
+		nv := len(c14Pool.violations)
+		c14Pool.mu.Unlock()
+		if nv > 0 {
+			// attribute the automaton's report to the RPC that was running
+			c14Pool.mu.Lock()
+			for j := range c14Pool.violations {
+				if !strings.Contains(c14Pool.violations[j], "--- while serving:") {
+					c14Pool.violations[j] += "\n--- while serving:\n" + e.Describe()
+				}
+			}
+			c14Pool.mu.Unlock()
+		}
+	}
+}
+
 func runC14(c *Ctx, i int, r *rand.Rand) {
 	modeB := i%2 == 1
 	p := c14Pool
@@ -550,9 +641,25 @@ func runC14(c *Ctx, i int, r *rand.Rand) {
 	p.mu.Lock()
 	p.recordHist = modeB && c.Thorough() && i%4 == 1
 	p.mu.Unlock()
-	if i%3 == 2 {
+	// ownership recorded in earlier rounds is stale (rounds in mode A do not track): start from nothing
+	p.mu.Lock()
+	p.live, p.codecLive = map[*bytes.Buffer]bool{}, map[any]bool{}
+	keep := map[*bytes.Buffer]string{}
+	for _, q := range p.quarantine {
+		if st, ok := p.putStack[q]; ok {
+			keep[q] = st
+		}
+	}
+	p.putStack = keep
+	p.mu.Unlock()
+	if i%6 == 5 {
+		// W3: error paths one RPC at a time with the ownership automaton on: deterministic detection of
+		// double releases and of writes into a buffer after its release
+		p.enabled.Store(true)
+		c14W3(c, i, r)
+	} else if i%3 == 2 {
 		// duplex streams are cheap: several per round, each with its own fault and pairing
-		for rep := 0; rep < 6; rep++ {
+		for rep := 0; rep < 12; rep++ {
 			c14W2(c, i, r, modeB)
 		}
 	} else {
